@@ -237,15 +237,23 @@ class EBNF_to_BNF(Transformer_InPlace):
         self.i += 1
         return new_name
 
+    def _cache_key(self, key):
+        # Terminal equality ignores filter_out, and a helper rule inherits the options (keep_all_tokens) of the
+        # rule that created it: occurrences that filter their tokens differently must not share a helper rule.
+        items = key if isinstance(key, tuple) else (key,)
+        terms = [t for i in items if isinstance(i, (Tree, Terminal))
+                 for t in ([i] if isinstance(i, Terminal) else i.scan_values(lambda v: isinstance(v, Terminal)))]
+        return key, tuple(t.filter_out for t in terms), bool(self.rule_options and self.rule_options.keep_all_tokens)
+
     def _add_rule(self, key, name, expansions):
         t = NonTerminal(name)
         self.new_rules.append((name, expansions, self.rule_options))
-        self.rules_cache[key] = t
+        self.rules_cache[self._cache_key(key)] = t
         return t
 
     def _add_recurse_rule(self, type_: str, expr: Tree):
         try:
-            return self.rules_cache[expr]
+            return self.rules_cache[self._cache_key(expr)]
         except KeyError:
             new_name = self._name_rule(type_)
             t = NonTerminal(new_name)
@@ -269,7 +277,7 @@ class EBNF_to_BNF(Transformer_InPlace):
         """
         key = (a, b, target, atom)
         try:
-            return self.rules_cache[key]
+            return self.rules_cache[self._cache_key(key)]
         except KeyError:
             new_name = self._name_rule('repeat_a%d_b%d' % (a, b))
             tree = ST('expansions', [ST('expansion', [target] * a + [atom] * b)])
@@ -302,7 +310,7 @@ class EBNF_to_BNF(Transformer_InPlace):
         """
         key = (a, b, target, atom, "opt")
         try:
-            return self.rules_cache[key]
+            return self.rules_cache[self._cache_key(key)]
         except KeyError:
             new_name = self._name_rule('repeat_a%d_b%d_opt' % (a, b))
             tree = ST('expansions', [
